@@ -408,6 +408,8 @@ def _(E, c):
 def _(E, c):
     if c.callee.idents[-1] in ('borrow', 'as_ref', 'borrow_mut'):
         v = c.args[0]
+        if c.callee.idents[-1] == 'as_ref' and isinstance(E.deref(v), StructV) and E.lookup_functions(c.callee, len(c.args)):
+            return NotImplemented      # the repo (or a macro it expands) defines AsRef for this struct: run it
         # &Vec<T> -> &[T], &String -> &str, &T -> &T  : all identity in this value domain
         return v
     t = E.deref(c.args[0])
@@ -629,6 +631,54 @@ def deep_eq(E, a, b):
 
 DEEP_EQ = {}
 
+
+
+@model('re:^<.* as (PartialEq|PartialOrd)>::(eq|ne|lt|le|gt|ge|partial_cmp)$')
+def _(E, c):
+    """`&A == &B` (impl PartialEq<&B> for &A): compare the referents through A's own impl"""
+    q = (c.callee.qself or '').strip()
+    if not q.startswith('&') or len(c.args) != 2:
+        return NotImplemented
+    inner = []
+    for a in c.args:
+        if not isinstance(a, RefV):
+            return NotImplemented
+        t = E.get_path(a.cell.value, a.path)
+        if not isinstance(t, RefV):
+            return NotImplemented
+        inner.append(t)
+    q2 = q[1:].strip()
+    if q2.startswith('mut '):
+        q2 = q2[4:]
+    tys = [strip_one_ref(t) if t else t for t in (c.arg_tys or [])]
+    return E.do_call(c.frame, '<%s as %s>::%s' % (q2, c.callee.trait, c.callee.idents[-1]), inner, c.dest_ty, tys)
+
+
+def strip_one_ref(t):
+    t = t.strip()
+    if t.startswith('&'):
+        t = t[1:].lstrip()
+        if t.startswith("'"):
+            t = t.split(' ', 1)[1] if ' ' in t else t
+        if t.startswith('mut '):
+            t = t[4:]
+    return t
+
+
+@fallback(r'^<.* as PartialOrd>::(lt|le|gt|ge)$')
+def _(E, c):
+    """provided comparison methods of PartialOrd: through the type's own partial_cmp"""
+    q = (c.callee.qself or '').strip()
+    r = E.do_call(c.frame, '<%s as PartialOrd>::partial_cmp' % q, list(c.args), 'std::option::Option<std::cmp::Ordering>', c.arg_tys)
+    n, v = variant(E, r)
+    if n != 'Some':
+        return False
+    o = E.deref(payload(E, v, 'Some'))
+    tag = o.tag
+    m = c.callee.idents[-1]
+    if is_sym(tag):
+        return {'lt': tag < 0, 'le': tag <= 0, 'gt': tag > 0, 'ge': tag >= 0}[m]
+    return {'lt': tag < 0, 'le': tag <= 0, 'gt': tag > 0, 'ge': tag >= 0}[m]
 
 
 @fallback(r'^<.* as PartialEq>::(eq|ne)$')
@@ -1314,6 +1364,39 @@ def _(E, c):
     it = as_iter(E, c.args[0])
     x = it.next(E)
     return some(x, c.dest_ty) if x is not None else none(c.dest_ty)
+
+
+@model('re:^<.* as Iterator>::(cmp|partial_cmp|eq|ne|lt|le|gt|ge)$')
+def _(E, c):
+    """lexicographic comparison of two iterators over scalars (forks per element)"""
+    a, b = as_iter(E, c.args[0]), as_iter(E, c.args[1])
+    m = c.callee.idents[-1]
+    res = 0
+    while True:
+        x, y = a.next(E), b.next(E)
+        if x is None and y is None:
+            break
+        if x is None:
+            res = -1
+            break
+        if y is None:
+            res = 1
+            break
+        xv, yv = scalar_of(E, x), scalar_of(E, y)
+        if xv is None or yv is None:
+            raise Inconclusive('Iterator::%s over non-scalar items' % m)
+        sym = is_sym(xv) or is_sym(yv)
+        if (E.ctx.branch(xv < yv) if sym else xv < yv):
+            res = -1
+            break
+        if (E.ctx.branch(xv > yv) if sym else xv > yv):
+            res = 1
+            break
+    if m == 'cmp':
+        return EnumV('Ordering', res, {-1: 'Less', 0: 'Equal', 1: 'Greater'}[res])
+    if m == 'partial_cmp':
+        return some(EnumV('Ordering', res, {-1: 'Less', 0: 'Equal', 1: 'Greater'}[res]))
+    return {'eq': res == 0, 'ne': res != 0, 'lt': res < 0, 'le': res <= 0, 'gt': res > 0, 'ge': res >= 0}[m]
 
 
 @model('re:^<.* as DoubleEndedIterator>::next_back$')
